@@ -91,42 +91,62 @@ theorem skipWs_valueText (val t : Bytes) : skipWs (valueText val ++ t) = valueTe
         simp [litFalse, skipWs, isWs]
       · simp [hn, ht1, hf1, skipWs, isWs]
 
-/-! ### members -/
+/-! ### members, generic in how a value is written -/
+
+/-- A way of writing a member value: its text, what the text denotes, and the two facts the
+object-level lemmas need. -/
+structure ValR where
+  text : Bytes → Bytes
+  val : Bytes → JVal
+  parse : ∀ v t, Delim t → parseValue (text v ++ t) = some (val v, t)
+  skip : ∀ v t, skipWs (text v ++ t) = text v ++ t
+
+/-- `WriteInferred` -/
+def inferredR : ValR := ⟨valueText, inferredVal, parseValue_valueText, skipWs_valueText⟩
+
+/-- `WriteString` -/
+def stringR : ValR :=
+  ⟨fun v => 0x22 :: (escape v ++ [0x22]), JVal.str,
+   by intro v t _; simp [parseValue, strBody_escape],
+   by intro v t; simp [skipWs, isWs]⟩
+
+variable (R : ValR)
 
 def renderMember (m : Bytes × Bytes) : Bytes :=
-  0x22 :: (escape m.1 ++ 0x22 :: 0x3a :: 0x20 :: valueText m.2)
+  0x22 :: (escape m.1 ++ 0x22 :: 0x3a :: 0x20 :: R.text m.2)
 
-def dec (m : Bytes × Bytes) : Bytes × JVal := (m.1, inferredVal m.2)
+def dec (m : Bytes × Bytes) : Bytes × JVal := (m.1, R.val m.2)
 
 theorem parseMember_render (m : Bytes × Bytes) (t : Bytes) (ht : Delim t) :
-    parseMember (renderMember m ++ t) = some (dec m, t) := by
-  have e : renderMember m ++ t = 0x22 :: (escape m.1 ++ 0x22 :: (0x3a :: 0x20 :: (valueText m.2 ++ t))) := by
+    parseMember (renderMember R m ++ t) = some (dec R m, t) := by
+  have e : renderMember R m ++ t = 0x22 :: (escape m.1 ++ 0x22 :: (0x3a :: 0x20 :: (R.text m.2 ++ t))) := by
     simp [renderMember]
-  have hs : skipWs (0x20 :: (valueText m.2 ++ t)) = valueText m.2 ++ t := by
-    have := skipWs_valueText m.2 t
+  have hs : skipWs (0x20 :: (R.text m.2 ++ t)) = R.text m.2 ++ t := by
+    have := R.skip m.2 t
     simpa [skipWs, isWs] using this
   rw [e]
   simp only [parseMember, if_true, strBody_escape]
-  have hs2 : skipWs (0x3a :: 0x20 :: (valueText m.2 ++ t)) = 0x3a :: 0x20 :: (valueText m.2 ++ t) := by
+  have hs2 : skipWs (0x3a :: 0x20 :: (R.text m.2 ++ t)) = 0x3a :: 0x20 :: (R.text m.2 ++ t) := by
     simp [skipWs, isWs]
   rw [hs2]
-  simp only [if_true, hs, parseValue_valueText m.2 t ht]
+  simp only [if_true, hs, R.parse m.2 t ht]
   rfl
 
 def renderTail (ms : List (Bytes × Bytes)) : Bytes :=
-  ms.flatMap fun m => 0x2c :: 0x20 :: renderMember m
+  ms.flatMap fun m => 0x2c :: 0x20 :: renderMember R m
 
 def renderList : List (Bytes × Bytes) → Bytes
   | [] => []
-  | m :: r => renderMember m ++ renderTail r
+  | m :: r => renderMember R m ++ renderTail R r
 
 theorem renderTail_cons (m : Bytes × Bytes) (ms : List (Bytes × Bytes)) :
-    renderTail (m :: ms) = 0x2c :: 0x20 :: (renderMember m ++ renderTail ms) := by
+    renderTail R (m :: ms) = 0x2c :: 0x20 :: (renderMember R m ++ renderTail R ms) := by
   simp [renderTail]
 
 theorem parseMembers_render : ∀ (ms : List (Bytes × Bytes)) (m : Bytes × Bytes) (fuel : Nat) (t : Bytes),
     ms.length < fuel →
-    parseMembers fuel (renderMember m ++ (renderTail ms ++ 0x7d :: t)) = some ((m :: ms).map dec, 0x7d :: t) := by
+    parseMembers fuel (renderMember R m ++ (renderTail R ms ++ 0x7d :: t))
+      = some ((m :: ms).map (dec R), 0x7d :: t) := by
   intro ms
   induction ms with
   | nil =>
@@ -134,18 +154,18 @@ theorem parseMembers_render : ∀ (ms : List (Bytes × Bytes)) (m : Bytes × Byt
     cases fuel with
     | zero => omega
     | succ n =>
-      have hp := parseMember_render m (0x7d :: t) ⟨t, Or.inr rfl⟩
+      have hp := parseMember_render R m (0x7d :: t) ⟨t, Or.inr rfl⟩
       simp [parseMembers, renderTail, hp, skipWs, isWs]
   | cons m2 ms ih =>
     intro m fuel t hf
     cases fuel with
     | zero => omega
     | succ n =>
-      have hp := parseMember_render m (0x2c :: 0x20 :: (renderMember m2 ++ (renderTail ms ++ 0x7d :: t)))
+      have hp := parseMember_render R m (0x2c :: 0x20 :: (renderMember R m2 ++ (renderTail R ms ++ 0x7d :: t)))
         ⟨_, Or.inl rfl⟩
       have ih' := ih m2 n t (by simp at hf; omega)
-      have hs : skipWs (0x20 :: (renderMember m2 ++ (renderTail ms ++ 0x7d :: t)))
-          = renderMember m2 ++ (renderTail ms ++ 0x7d :: t) := by
+      have hs : skipWs (0x20 :: (renderMember R m2 ++ (renderTail R ms ++ 0x7d :: t)))
+          = renderMember R m2 ++ (renderTail R ms ++ 0x7d :: t) := by
         simp [skipWs, isWs, renderMember]
       rw [renderTail_cons]
       simp only [List.cons_append, List.append_assoc]
@@ -155,14 +175,15 @@ theorem parseMembers_render : ∀ (ms : List (Bytes × Bytes)) (m : Bytes × Byt
       simp only [skipWs] at hs
       simp [hs, ih']
 
-theorem length_le_renderTail (ms : List (Bytes × Bytes)) : ms.length ≤ (renderTail ms).length := by
+theorem length_le_renderTail (ms : List (Bytes × Bytes)) : ms.length ≤ (renderTail R ms).length := by
   induction ms with
   | nil => simp [renderTail]
   | cons m ms ih => rw [renderTail_cons]; simp; omega
 
 /-- the text of an object with members `ms` -/
-def objText (ms : List (Bytes × Bytes)) : Bytes := 0x7b :: (renderList ms ++ [0x7d])
+def objText (ms : List (Bytes × Bytes)) : Bytes := 0x7b :: (renderList R ms ++ [0x7d])
 
+omit R in
 theorem parseObj_eq (r : Bytes) (c1 : UInt8) (r1 : Bytes) (h : r = c1 :: r1) (hws : isWs c1 = false)
     (h7 : c1 ≠ 0x7d) :
     parseObj (0x7b :: r) =
@@ -176,18 +197,19 @@ theorem parseObj_eq (r : Bytes) (c1 : UInt8) (r1 : Bytes) (h : r = c1 :: r1) (hw
   simp only [parseObj, skipWs, h0, hd, if_true, h7, if_false, List.length_cons]
   rfl
 
-theorem parseObj_objText (ms : List (Bytes × Bytes)) : parseObj (objText ms) = some (ms.map dec) := by
+theorem parseObj_objText (ms : List (Bytes × Bytes)) :
+    parseObj (objText R ms) = some (ms.map (dec R)) := by
   cases ms with
   | nil => simp [objText, renderList, parseObj, skipWs, isWs]
   | cons m ms =>
-    have e : renderList (m :: ms) ++ [0x7d] = renderMember m ++ (renderTail ms ++ [0x7d]) := by
+    have e : renderList R (m :: ms) ++ [0x7d] = renderMember R m ++ (renderTail R ms ++ [0x7d]) := by
       simp [renderList]
-    have hlen : ms.length < (renderMember m ++ (renderTail ms ++ [0x7d])).length + 1 := by
-      have := length_le_renderTail ms
+    have hlen : ms.length < (renderMember R m ++ (renderTail R ms ++ [0x7d])).length + 1 := by
+      have := length_le_renderTail R ms
       simp; omega
-    have hp := parseMembers_render ms m _ [] hlen
+    have hp := parseMembers_render R ms m _ [] hlen
     unfold objText
-    rw [e, parseObj_eq _ 0x22 (escape m.1 ++ 0x22 :: 0x3a :: 0x20 :: valueText m.2 ++ (renderTail ms ++ [0x7d]))
+    rw [e, parseObj_eq _ 0x22 (escape m.1 ++ 0x22 :: 0x3a :: 0x20 :: R.text m.2 ++ (renderTail R ms ++ [0x7d]))
       (by simp [renderMember]) (by decide) (by decide), hp]
     simp [skipWs]
 
